@@ -206,8 +206,11 @@ def tab_dialects(repo, tier="quick"):
     m = repo.module("dialects")
     obs = []
     # find the two partial(...) parsers and the dialects they bind
-    wanted = {"coarse": "parse_graph_base_node", "atomic": "_fragment_node_parser"}
+    wanted = {"coarse": "parse_graph_base_node", "atomic": "_fragment_node_parser", "coarse_fragment": "_cg_fragment_node_parser"}
     for level, pname in wanted.items():
+        if level == "coarse_fragment" and pname not in m.partials:
+            # a tree without a parser of its own for coarse fragment nodes: SIB.S6-fragment-dialect says what that means
+            continue
         if pname not in m.partials:
             raise AnalysisError("anchor vanished: %s is no longer a functools.partial in dialects.py" % pname)
         target, bound = m.partials[pname]
